@@ -95,6 +95,9 @@ pub(crate) fn mk_node(id: u8) -> Cc<Node> {
     unsafe { REG[id as usize] = Some(c.inner) };
     c
 }
+pub(crate) fn reg_opt(id: usize) -> Option<P> {
+    unsafe { REG[id].map(|p| p.cast()) }
+}
 pub(crate) fn reg(id: usize) -> P {
     unsafe { REG[id].unwrap().cast() }
 }
@@ -413,4 +416,229 @@ pub(crate) fn cc_remove_from_list_collector_owned_noop() {
     kani::assert((next_of(x), prev_of(x), next_of(py), prev_of(py)) == links, "remove_from_list::collector_owned::frame::links");
     kani::assert(pc_view().1 == 0, "remove_from_list::collector_owned::frame::buffer");
     core::mem::forget((h, y));
+}
+
+// ------------------------------------------------------------------------------------------------
+// Cc::drop — three branches (DESIGN 4 cc.rs)
+// ------------------------------------------------------------------------------------------------
+pub(crate) fn cb_counts() -> (u16, u16, u16) {
+    (g().n_trace, g().n_fin, g().n_drop)
+}
+
+/// Branch "count stays positive": exactly -1, buffered with tracing counter 0, nothing else.
+//@ C04 C02 C11 C01 | complete | deciding | feat=full,std | fn=Cc::drop,add_to_list | timeout=600
+#[kani::proof]
+#[kani::unwind(9)]
+pub(crate) fn cc_drop_contract_shared() {
+    let h = mk_node(0);
+    let y = mk_node(1);
+    let z = mk_node(2);
+    let (x, py, pz) = (raw_of(&h), raw_of(&y), raw_of(&z));
+    let in_pc: bool = kani::any();
+    let (arr, n) = build_pc(x, [py, pz], in_pc);
+    let (t0, c0) = havoc_idle(x, in_pc);
+    kani::assume(c0 & 0x3fff >= 2);
+    let (wy, wz) = (words_of(py), words_of(pz));
+    let fl = any_flags_not_tracing();
+    let sn0 = state(|s| sp::snap(s));
+    drop(h);
+    let (t1, c1) = words_of(x);
+    kani::assert(c1 & 0x3fff == (c0 & 0x3fff) - 1, "Cc::drop::shared::post::strong_count_minus_one");
+    kani::assert(c1 & 0xc000 == c0 & 0xc000, "Cc::drop::shared::frame::finalized_and_metadata_bits");
+    kani::assert(t1 >> 14 == 1, "Cc::drop::shared::post::buffered_when_count_stays_positive");
+    kani::assert(t1 & 0x3fff == 0, "Cc::drop::shared::post::tracing_counter_zero");
+    let (s, size) = pc_view();
+    kani::assert(s.wf && lp::contains(&s, x) && s.len == size, "Cc::drop::shared::post::in_buffer_wellformed");
+    kani::assert(size == if in_pc { n } else { n + 1 }, "Cc::drop::shared::post::buffered_count_plus_one_iff_was_not_buffered");
+    let mut i = 0;
+    while i < 3 {
+        if i < n && arr[i] != Some(x) {
+            kani::assert(lp::contains(&s, arr[i].unwrap()), "Cc::drop::shared::frame::other_members_stay");
+        }
+        i += 1;
+    }
+    kani::assert(words_of(py) == wy && words_of(pz) == wz, "Cc::drop::shared::frame::other_objects");
+    kani::assert(state(|s| sp::snap(s)) == sn0, "Cc::drop::shared::frame::collector_state");
+    kani::assert(cb_counts() == (0, 0, 0) && node_of(unsafe { REG[0].unwrap() }).intact(), "Cc::drop::shared::frame::no_callback_value_intact");
+    core::mem::forget((y, z));
+}
+
+/// Branch "collector-owned" (mark InList / InQueue): plain decrement, nothing else.
+//@ C01 C04 C12 | complete | deciding | feat=full,std | fn=Cc::drop | timeout=600
+#[kani::proof]
+#[kani::unwind(9)]
+pub(crate) fn cc_drop_contract_collector_owned() {
+    let h = mk_node(0);
+    let y = mk_node(1);
+    let (x, py) = (raw_of(&h), raw_of(&y));
+    let first = if kani::any() { lp::chain(&[x, py], 2) } else { lp::chain(&[py, x], 2) };
+    let t: u16 = kani::any();
+    let c: u16 = kani::any();
+    kani::assume(t >> 14 >= 2 && (t & 0x3fff) != 0x3fff && (c & 0x3fff) != 0x3fff && (c & 0x3fff) >= 1);
+    set_words_of(x, t, c);
+    let wy = words_of(py);
+    let links = (next_of(x), prev_of(x), next_of(py), prev_of(py));
+    let fl = any_flags_not_tracing();
+    let sn0 = state(|s| sp::snap(s));
+    drop(h);
+    kani::assert(words_of(x) == (t, c - 1), "Cc::drop::collector_owned::post::decrement_only");
+    kani::assert((next_of(x), prev_of(x), next_of(py), prev_of(py)) == links, "Cc::drop::collector_owned::frame::links");
+    kani::assert(words_of(py) == wy, "Cc::drop::collector_owned::frame::other_objects");
+    kani::assert(pc_view().1 == 0 && pc_view().0.len == 0, "Cc::drop::collector_owned::frame::not_buffered");
+    kani::assert(state(|s| sp::snap(s)) == sn0, "Cc::drop::collector_owned::frame::collector_state");
+    kani::assert(cb_counts() == (0, 0, 0) && node_of(unsafe { REG[0].unwrap() }).intact(), "Cc::drop::collector_owned::frame::no_callback_not_freed");
+    core::mem::forget(y);
+}
+
+/// Branch "last owner" outside a collection: finalize once if due (flag first, under `finalizing`),
+/// then one destructor (under `dropping`, marked dropped first), un-buffered, freed, bytes decreased,
+/// flags restored — whatever the buffered / finalized / stale-counter state.
+//@ C04 C03 C05 C11 C12 C02 | complete | deciding | feat=full,std,fin | fn=Cc::drop,remove_from_list,cc_dealloc,CcBox::layout | timeout=900
+#[kani::proof]
+#[kani::unwind(9)]
+pub(crate) fn cc_drop_contract_last_owner() {
+    let h = mk_node(0);
+    let y = mk_node(1);
+    let z = mk_node(2);
+    let (x, py, pz) = (raw_of(&h), raw_of(&y), raw_of(&z));
+    let in_pc: bool = kani::any();
+    let (arr, n) = build_pc(x, [py, pz], in_pc);
+    let (t0, c0) = havoc_idle(x, in_pc);
+    kani::assume(c0 & 0x3fff == 1);
+    let due = cfg!(feature = "finalization") && (c0 & 0x4000 == 0);
+    let (wy, wz) = (words_of(py), words_of(pz));
+    let fl = any_flags_not_tracing();
+    let sn0 = state(|s| sp::snap(s));
+    kani::assume(sn0.bytes >= 3 * NODE_BOX);
+    drop(h);
+    let gs = g();
+    kani::assert(gs.n_fin == if due { 1 } else { 0 }, "Cc::drop::last_owner::post::finalized_once_iff_due");
+    kani::assert(gs.n_drop == 1 && gs.drop_calls[0] == 1 && gs.double_drop == 0, "Cc::drop::last_owner::post::dropped_exactly_once");
+    kani::assert(!due || gs.first_fin_seq[0] < gs.first_drop_seq[0], "Cc::drop::last_owner::post::finalize_before_drop");
+    kani::assert(gs.fin_bit_unset_in_cb == 0, "Cc::drop::last_owner::post::finalized_flag_set_before_finalizer");
+    kani::assert(!due || gs.fin_flags & 2 != 0, "Cc::drop::last_owner::post::finalizer_runs_under_finalizing");
+    kani::assert(gs.drop_flags & 4 != 0, "Cc::drop::last_owner::post::destructor_runs_under_dropping");
+    kani::assert(gs.fin_while_tracing == 0 && gs.drop_while_tracing == 0, "Cc::drop::last_owner::post::callbacks_not_tracing");
+    kani::assert(gs.drop_not_marked_dropped == 0, "Cc::drop::last_owner::post::marked_dropped_before_destructor");
+    kani::assert(gs.canary_broken == 0 && gs.n_trace == 0, "Cc::drop::last_owner::frame::value_intact_no_trace");
+    let sn1 = state(|s| sp::snap(s));
+    kani::assert(sn1.bytes == sn0.bytes - NODE_BOX, "Cc::drop::last_owner::post::allocated_bytes_minus_box_size");
+    kani::assert(sp::Snap { bytes: sn0.bytes, ..sn1 } == sn0, "Cc::drop::last_owner::post::flags_restored_execs_kept");
+    { let (a, b) = pc_is(&arr, n, Some(x)); kani::assert(a, "Cc::drop::last_owner::post::buffer_is_old_buffer_without_operand"); kani::assert(b, "Cc::drop::last_owner::post::buffered_count_minus_one_iff_was_buffered"); }
+    kani::assert(words_of(py) == wy && words_of(pz) == wz, "Cc::drop::last_owner::frame::other_objects");
+    core::mem::forget((y, z));
+}
+
+/// ... and the box really is released before the drop returns (CBMC must flag the read).
+//@ C04 C03 C02 | complete | deciding | feat=full | fn=Cc::drop | mustfail=expect_freed | timeout=600
+#[kani::proof]
+#[kani::unwind(9)]
+pub(crate) fn cc_drop_last_owner_releases_box() {
+    let h = mk_node(0);
+    let x = raw_of(&h);
+    let in_pc: bool = kani::any();
+    if in_pc {
+        add_to_list(x);
+    }
+    let (t0, c0) = havoc_idle(x, in_pc);
+    kani::assume(c0 & 0x3fff == 1);
+    drop(h);
+    let _ = crate::utils::verif_proofs::expect_freed(x.as_ptr() as *const u8);
+}
+
+/// Finalizer resurrects the object: not dropped, not freed, buffered with tracing counter 0.
+//@ C06 C04 C05 C01 | complete | deciding | feat=full,fin | fn=Cc::drop | timeout=900
+#[cfg(feature = "finalization")]
+#[kani::proof]
+#[kani::unwind(9)]
+pub(crate) fn cc_drop_contract_resurrected() {
+    let h = mk_node(0);
+    let y = mk_node(1);
+    let z = mk_node(2);
+    let (x, py, pz) = (raw_of(&h), raw_of(&y), raw_of(&z));
+    let in_pc: bool = kani::any();
+    let (arr, n) = build_pc(x, [py, pz], in_pc);
+    let (t0, c0) = havoc_idle(x, in_pc);
+    kani::assume(c0 & 0x3fff == 1 && c0 & 0x4000 == 0);
+    g().fin_act[0] = ghost::Act::ResurrectSelf;
+    let fl = any_flags_not_tracing();
+    let sn0 = state(|s| sp::snap(s));
+    drop(h);
+    let gs = g();
+    kani::assert(gs.n_fin == 1 && gs.n_drop == 0, "Cc::drop::resurrected::post::finalized_once_not_dropped");
+    let (t1, c1) = words_of(x);
+    kani::assert(c1 & 0x3fff == 1, "Cc::drop::resurrected::post::strong_count_is_number_of_handles");
+    kani::assert(c1 & 0x4000 != 0, "Cc::drop::resurrected::post::finalized_bit_set");
+    kani::assert(t1 >> 14 == 1 && t1 & 0x3fff == 0, "Cc::drop::resurrected::post::buffered_with_tracing_zero");
+    let (s, size) = pc_view();
+    kani::assert(s.wf && lp::contains(&s, x) && s.len == size, "Cc::drop::resurrected::post::in_buffer_wellformed");
+    kani::assert(state(|s| sp::snap(s)) == sn0, "Cc::drop::resurrected::post::flags_restored_bytes_kept");
+    kani::assert(node_of(unsafe { REG[0].unwrap() }).intact(), "Cc::drop::resurrected::post::value_intact");
+    #[allow(static_mut_refs)]
+    unsafe {
+        kani::assert(STASH[0].is_some() && raw_of(STASH[0].as_ref().unwrap()) == x, "Cc::drop::resurrected::post::stashed_handle_points_to_object");
+    }
+    core::mem::forget((y, z));
+}
+
+//@ C12 | complete | deciding | feat=full,std | fn=Cc::drop
+#[kani::proof]
+#[kani::should_panic]
+pub(crate) fn cc_drop_panics_while_tracing() {
+    let h = mk_node(0);
+    state(|s| sp::set_flags(s, true, false, false));
+    drop(h);
+}
+
+/// Recursion: a -> b (traced slot) -> c (UNTRACED slot), each solely owned; b and c possibly buffered
+/// with stale state.  Dropping the last handle of `a` reclaims all three before returning.
+fn drop_chain_case(bb: bool, bc: bool) {
+    let a = mk_node(0);
+    let b = mk_node(1);
+    let c = mk_node(2);
+    let (pa, pb, pc_) = (raw_of(&a), raw_of(&b), raw_of(&c));
+    // buffer b and/or c the way the public API does (a second handle dropped)
+    if bb { drop(b.clone()); }
+    if bc { drop(c.clone()); }
+    put(&peek_node(&b).hidden, Some(c));
+    put(&peek_node(&a).s0, Some(b));
+    // stale tracing counters on the unbuffered ones
+    if !bb { let s: u16 = kani::any(); kani::assume(s < 0x3fff); set_words_of(pb, s, words_of(pb).1); }
+    if !bc { let s: u16 = kani::any(); kani::assume(s < 0x3fff); set_words_of(pc_, s, words_of(pc_).1); }
+    let b0 = state(|s| sp::snap(s)).bytes;
+    drop(a);
+    let gs = g();
+    kani::assert(gs.n_drop == 3 && gs.drop_calls[0] == 1 && gs.drop_calls[1] == 1 && gs.drop_calls[2] == 1, "Cc::drop::last_owner::post::solely_owned_children_dropped_recursively");
+    let exp_fin = if cfg!(feature = "finalization") { 3 } else { 0 };
+    kani::assert(gs.n_fin == exp_fin && gs.fin_after_drop == 0, "Cc::drop::last_owner::post::children_finalized_once_iff_due");
+    let sn = state(|s| sp::snap(s));
+    kani::assert(sn.bytes == b0 - 3 * NODE_BOX, "Cc::drop::last_owner::post::all_boxes_released");
+    kani::assert(!sn.collecting && !sn.finalizing && !sn.dropping, "Cc::drop::last_owner::post::flags_restored");
+    kani::assert(pc_view().1 == 0 && pc_view().0.len == 0, "Cc::drop::last_owner::post::children_left_the_buffer");
+    kani::assert(gs.canary_broken == 0 && gs.double_drop == 0, "Cc::drop::last_owner::post::no_double_drop");
+}
+
+//@ C04 C03 C02 | bounded: ownership chain of depth 3, children unbuffered | deciding | feat=full,std | fn=Cc::drop | timeout=900
+#[kani::proof]
+#[kani::unwind(9)]
+pub(crate) fn cc_drop_last_owner_recursive_chain_ff() {
+    drop_chain_case(false, false);
+}
+//@ C04 C03 C02 | bounded: ownership chain of depth 3, both children buffered | deciding | feat=full,std | fn=Cc::drop | timeout=900
+#[kani::proof]
+#[kani::unwind(9)]
+pub(crate) fn cc_drop_last_owner_recursive_chain_tt() {
+    drop_chain_case(true, true);
+}
+//@ C04 C03 C02 | bounded: ownership chain of depth 3, middle child buffered | deciding | thorough | feat=full,std | fn=Cc::drop | timeout=900
+#[kani::proof]
+#[kani::unwind(9)]
+pub(crate) fn cc_drop_last_owner_recursive_chain_tf() {
+    drop_chain_case(true, false);
+}
+//@ C04 C03 C02 | bounded: ownership chain of depth 3, last child buffered | deciding | thorough | feat=full,std | fn=Cc::drop | timeout=900
+#[kani::proof]
+#[kani::unwind(9)]
+pub(crate) fn cc_drop_last_owner_recursive_chain_ft() {
+    drop_chain_case(false, true);
 }
